@@ -1,9 +1,10 @@
-from . import c09, c10, c16, fixedchk, graph, sem
+from . import c09, c10, c16, fixedchk, graph, sem, text
 
 CHECKS = {
     "C01": sem.run,
     "C02": sem.run,
     "C03": graph.c03,
+    "C04": text.c04,
     "C05": fixedchk.c05,
     "C06": fixedchk.c06,
     "C08": fixedchk.c08,
@@ -11,6 +12,7 @@ CHECKS = {
     "C10": c10.run,
     "C11": graph.c11,
     "C12": fixedchk.c12,
+    "C15": text.c15,
     "C16": c16.run,
     "C17": fixedchk.c17,
 }
